@@ -343,6 +343,12 @@ def step (s : St) (line : String) : St × String :=
     match ws.mapM word with
     | some ws => (s, tokenStream (s.prog :: ws))
     | none => (s, "bad-op")
+  | "pa" :: "argc0" :: _ =>
+    -- `Handler::evalArguments( 0, argv)`: the model's answer for the EMPTY argv (no program name, no
+    -- sources); known finding argc0-reads-outside-argv (C04): the model answers `oob`
+    match s.cfg with
+    | none => (s, "bad-op")
+    | some (cfg, inits) => (s, resLine (evalArgumentsT cfg (cfg.initState inits) {} []) (showT cfg))
   | "pa" :: "rest" :: ws =>
     match ws.mapM word with
     | some ws => (s, restStream (s.prog :: ws))
@@ -369,19 +375,28 @@ def step (s : St) (line : String) : St × String :=
         (s, resLine r (showT cfg))
   | "pa" :: "gdef" :: rest =>
     -- pa gdef members=<n> -- <m>:<keyspec> ...   (members created 0..n-1, then the definitions in sequence)
+    -- item `<m>s:<keyspec>` (digits, then the letter s): a SUB-GROUP argument of member m
     let opts := rest.takeWhile (· ≠ "--")
     let items := (rest.dropWhile (· ≠ "--")).drop 1
     match (kv opts "members").bind String.toNat? with
     | none => (s, "bad-op")
     | some n =>
       let parsed := items.mapM (fun it => match splitOnChar ':' it with
-        | [m, spec] => m.toNat?.map (fun m => (m, spec.toList))
+        | [m, spec] =>
+          let cs := m.toList
+          let isSub := cs.getLast? == some 's'
+          (String.ofList (if isSub then cs.dropLast else cs)).toNat?.map (fun m => (m, isSub, spec.toList))
         | _ => none)
       match parsed with
       | none => (s, "bad-op")
       | some defs =>
         if defs.any (fun d => d.1 ≥ n) then (s, "bad-op") else
-        match groupDefineSeq (List.replicate n []) defs 0 with
+        -- plain definitions only: the one-table model the C08 definition theorems speak about;
+        -- with a sub-group definition: both containers of every member (`groupDefineSeqT`)
+        let r := if defs.any (fun d => d.2.1)
+          then groupDefineSeqT (List.replicate n ([], [])) defs 0
+          else groupDefineSeq (List.replicate n []) (defs.map (fun d => (d.1, d.2.2))) 0
+        match r with
         | none => (s, "ok")
         | some (e, idx) => (s, s!"throw {e.name} at {idx}")
   | "pa" :: "group" :: rest =>
